@@ -241,7 +241,7 @@ def deep_trace(depth):
             tr.append(dict(op='raised', what='get(1, 2) with %d packets still pending in the model: %r' % (depth - d + 1, e)))
             break
         ev = dict(op='get', a0=1, a1=2, res=[a0, a1], c=c.decode(), d=int(dd))
-        if d % 25 == 0 or d > depth - 3:
+        if d % max(25, depth // 20) == 0 or d > depth - 3:
             ev['st'] = proj()
         else:
             ev['op'] = 'getq'
@@ -299,9 +299,9 @@ def body(ctx):
     big = {0: 0, 1: 1, 2: 0x7FFFFFFF, 3: 0x80000000, 4: 0xFFFFFFFE, 5: 0xFFFFFFFF}
     tr2 = random_traces(ctx, n // 3, length, ids6, rng, idmap=lambda i: big[i])
     validate(ctx, tr2, ids6, 'random ids near 2^31/2^32 (ranked)')
-    # deep queues: hundreds of packets parked for one pair while another pair is served (FIFO must hold at any depth)
+    # deep queues: hundreds to thousands of packets parked for one pair while another pair is served (FIFO must hold at any depth)
     deep = []
-    for depth in ((300,) if ctx.quick else (300, 1000)):
+    for depth in ((300, 5000) if ctx.quick else (300, 1000, 5000, 20000)):
         deep.append(deep_trace(depth))
     validate(ctx, deep, [0, 1, 2], 'deep queues')
     ctx.sample(dict(kind='history', events=tr[0][:8]))
